@@ -210,12 +210,13 @@ func init() {
 	}, oracleNoPanic, oracleExec, oracleConserved)
 	{
 		base := props["C09"]
-		props["C09"] = propRun{rule: base.rule + "; dispatch stage: command trees with SubcommandsOptional set independently on the parser and every command, executable commands at every level, argument vector = a path of command words stopping at a random depth; expected outcome stated from the public model (ErrCommandRequired and nothing runs, or exactly one dispatch of the innermost command); bad-positional stage: a word that the positional field cannot take, reaching it as a plain word, behind the terminator, behind the first plain word under PassAfterNonOption or as an unknown option under IgnoreUnknown: an error and no CommandHandler call; shadowed-required stage: a required option of an outer level whose names the selected command declares again for an option of its own: still required (ErrRequired naming it, nothing runs) unless given in front of the command word; outer-word stage: below a command the name or alias of a command of an outer level is an unknown command (nothing runs) where a subcommand is required, an ordinary argument of the one command that runs otherwise", run: func(c *Ctx) {
+		props["C09"] = propRun{rule: base.rule + "; dispatch stage: command trees with SubcommandsOptional set independently on the parser and every command, executable commands at every level, argument vector = a path of command words stopping at a random depth; expected outcome stated from the public model (ErrCommandRequired and nothing runs, or exactly one dispatch of the innermost command); bad-positional stage: a word that the positional field cannot take, reaching it as a plain word, behind the terminator, behind the first plain word under PassAfterNonOption or as an unknown option under IgnoreUnknown: an error and no CommandHandler call; shadowed-required stage: a required option of an outer level whose names the selected command declares again for an option of its own: still required (ErrRequired naming it, nothing runs) unless given in front of the command word; outer-word stage: below a command the name or alias of a command of an outer level is an unknown command (nothing runs) where a subcommand is required, an ordinary argument of the one command that runs otherwise; completion-mode stage: GO_FLAGS_COMPLETION set, executable commands, CommandHandler or not, argument vectors from none at all to a command word and a partial word: nothing runs, the completion handler gets the candidates", run: func(c *Ctx) {
 			base.run(c)
 			checkC09Dispatch(c, budget(c.Tier, 1200, 50000))
 			checkC09BadPositional(c, budget(c.Tier, 400, 10000))
 			checkC09Shadowed(c, budget(c.Tier, 300, 10000))
 			checkC09OuterWord(c, budget(c.Tier, 200, 6000))
+			checkC09CompletionMode(c, budget(c.Tier, 100, 2000))
 		}}
 	}
 	parseProp("C10", caseRule+"emphasis: positional arguments of all kinds interleaved with options and the terminator", 2500, 100000, func(p *Profile) {
